@@ -12,6 +12,7 @@ import (
 
 	"github.com/unixpickle/model3d/model2d"
 	"github.com/unixpickle/model3d/model3d"
+	"github.com/unixpickle/model3d/numerical"
 )
 
 type chartRec struct {
@@ -189,7 +190,16 @@ func floaterRun(id int, name string, disc *model3d.Mesh, weighting string, bnd s
 		default:
 			weights = model3d.Floater97ShapePreservingWeights(disc)
 		}
-		param := model3d.Floater97(disc, boundary, weights, nil)
+		var solver numerical.LargeLinearSolver
+		switch id % 4 {
+		case 1:
+			solver = &numerical.BiCGSTABSolver{MSETolerance: 1e-24} // a tolerance only, no iteration limit
+		case 2:
+			solver = &numerical.BiCGSTABSolver{MAETolerance: 1e-12}
+		case 3:
+			solver = &numerical.BiCGSTABSolver{MaxIters: 400, MAETolerance: 1e-12}
+		}
+		param := model3d.Floater97(disc, boundary, weights, solver)
 		// boundary vertices stay where the boundary map put them
 		boundary.Range(func(k model3d.Coord3D, v model2d.Coord) bool {
 			if got, ok := param.Load(k); !ok || got.Dist(v) > 1e-12 {
@@ -283,7 +293,12 @@ func packRun(id int, rng *rand.Rand, k int, w, h float64) atlasRec {
 		disc = disc.Translate(model3d.XYZ(float64(5*i), 0, 0))
 		mapping := model3d.NewCoordMap[model2d.Coord]()
 		for _, v := range disc.VertexSlice() {
-			mapping.Store(v, model2d.XY(v.X-float64(5*i), v.Y).Scale(1+0.5*rng.Float64()))
+			uv := model2d.XY(v.X-float64(5*i), v.Y)
+			if i%2 == 1 {
+				// every other chart is laid out as a mirror image (clockwise UV triangles): a valid layout
+				uv.X = -uv.X
+			}
+			mapping.Store(v, uv.Scale(1+0.5*rng.Float64()))
 		}
 		params = append(params, model3d.NewMeshUVMapForCoords(disc, mapping))
 		ntris += disc.NumTriangles()
